@@ -177,6 +177,8 @@ def check (spec0):
                 argv += ['--option', 'far-field', '--option', 'far-field-absolute', '--ff-distance', '100']
         else:
             argv += ['--near-field=' + ','.join ([repr (a [0]) for a in ax] + [repr (a [1]) for a in ax] + [str (a [2]) for a in ax])]
+        if (ax [0][2] + ax [1][2]) % 3 == 0:
+            argv += ['--geo-scale', '2.5']          # the structure is scaled, the requested points are not
         r = common.run_main (argv)
         if r ['kind'] == 'exception':
             raise common.Repo_Crash (r ['exc'], 'main')
